@@ -121,6 +121,24 @@ def gen_cases(tier, seed):
         cases.append({'seed': rng.randrange(1 << 30), 'min_part': 8, 'config': cfg, 'transfers': [t0, t1], 'family': 'not-started',
                       'plan': {'gate': {'match': 't0/cb:on_queued', 'phase': 'before', 'count': 1, 'after_cancel_begin': True},
                                'cancel': {'at': '@after_submit', 'target': 1, 'how': 'future.cancel'}}})
+    # cancel racing the start: the canceller is held at each statement of TransferCoordinator.cancel() while the transfer, until
+    # then waiting behind a blocker in the submission queue, is started and gets as far as its first request (held at a gate);
+    # then the canceller carries on.  Whoever announces done, on_done must come after that request has returned.
+    from .. import windows as _w
+
+    clines = [l for l in _w.candidate_lines(['futures.py']) if l[2] == 'TransferCoordinator.cancel']
+    for line in clines:
+        for kind, extra in (gen.KINDS if not quick else rng.sample(gen.KINDS, 4)):
+            t0 = {'kind': 'upload', 'src': 'path', 'size': 5}
+            t1 = dict({'kind': kind, 'size': rng.choice([5, 20])}, **extra)
+            t1['subs'] = [{}, {}]
+            cfg = dict(multipart_threshold=16, multipart_chunksize=8, io_chunksize=4, max_submission_concurrency=1)
+            cases.append({'seed': rng.randrange(1 << 30), 'min_part': 8, 'config': cfg, 'transfers': [t0, t1], 'family': 'cancel-racing-start',
+                          'plan': {'gate': {'match': ['t0/cb:on_queued', 't1/s3:'], 'phase': 'before', 'after_cancel_begin': True, 'hold_while_paused': True},
+                                   'cancel': {'at': '@after_submit', 'target': 1, 'how': 'future.cancel'}},
+                          'yield': {'p': 0.0, 'files': ['futures.py'],
+                                    'window': {'file': line[0], 'lineno': line[1], 'nth': 0, 'action': 'let_start', 'name': f'{line[0]}:{line[1]}:{line[2]}',
+                                               'wait': 2.0, 'release_prefix': 't0/', 'until_label': 't1'}}})
     # double-announce windows: cancel lands while the submission thread is inside these lines
     windows = [
         {'file': 'tasks.py', 'text': 'self._transfer_coordinator.set_status_to_queued()', 'name': 'before-queued'},
